@@ -4,7 +4,7 @@ TIE = ("hand-written Gallina model tied to /repo by the correspondence run of th
        "vm_compute inside Coq on the inputs the implementation ran under CPython 3.7-3.10) and by "
        "harness/translate_src.py for the items in coq/Gen/Src.v, harness/translate_lines.py for the statement-level translations in "
        "coq/Gen/SrcLines.v (expand_items, collapse_items, _parse_bytes), translate_args.py / translate_key.py / translate_norm.py / translate_header.py for "
-       "Gen/SrcArgs.v, SrcKey.v, SrcNorm.v, SrcHeader.v and harness/translate_deps.py for the reference graph in coq/Gen/SrcDeps.v")
+       "Gen/SrcArgs.v, SrcKey.v, SrcNorm.v, SrcHeader.v, translate_toarg.py / translate_fromarg.py for Gen/SrcToArg.v, SrcFromArg.v and harness/translate_deps.py for the reference graph in coq/Gen/SrcDeps.v")
 COMMON_TB = [KERNEL, TIE,
              "harness (worker.py, enc.py, common.py): serialisation of inputs/results, canonicalisation, oracles",
              "axioms: none declared; Print Assumptions output of every property theorem is in coverage.print_assumptions"]
@@ -222,6 +222,15 @@ PROPS["C06"]["level_text"] += (
 PROPS["C11"]["level_text"] += (
     "; the header case analysis of to_code_data (NOFREE check, function / non-function split, kind flag, unknown-flags test) is tied to the source "
     "by proof for ALL inputs (C11_header_case_analysis_is_the_source, Gen/SrcHeader.v)")
+PROPS["C02"]["level_text"] += (
+    "; the operand resolution is tied to the source as well (C02_to_arg_is_the_source: the elif chain of to_arg, re-translated in Gen/SrcToArg.v, "
+    "is the model's to_arg for all inputs and table states)")
+PROPS["C03"]["level_text"] += (
+    "; the operand encoding is tied to the source by proof (C03_from_arg_is_the_source: the isinstance chain of from_arg with its docstring rule, "
+    "re-translated in Gen/SrcFromArg.v, is the model's from_arg)")
+PROPS["C10"]["level_text"] += (
+    "; stage 3 of the encoder (mapping_to_items, both formats, with its NameError / TypeError cases) is tied to the source the same way "
+    "(C10_mapping_to_items_is_the_source)")
 
 NOT_CLAIMED = {
 }
